@@ -22,6 +22,18 @@ pub fn run(args: &[String]) -> i32 {
             println!("  point {}#{} len={}", p.site, p.occurrence, p.len);
         }
     }
+    if let Some(i) = args.iter().position(|a| a == "--natural") {
+        // real hash seeds and real random identifiers: how many distinct results do n plain runs give?
+        let n: usize = args.get(i + 1).and_then(|s| s.parse().ok()).unwrap_or(64);
+        let mut outcomes: std::collections::BTreeMap<String, usize> = std::collections::BTreeMap::new();
+        for _ in 0..n {
+            let o = crate::obs::analyze_natural(&code, sle::vm::Config::default(), crate::obs::lazy());
+            *outcomes.entry(o.canon_result()).or_insert(0) += 1;
+        }
+        for (k, v) in &outcomes {
+            println!("  {v:4} x {k}");
+        }
+    }
     if args.iter().any(|a| a == "--deviations") {
         let plans = extend(&Vec::new(), &base.log, &|_| true);
         println!("{} single-deviation plans", plans.len());
